@@ -1,11 +1,27 @@
 import Tuc.Model.CutStr
 import Tuc.Model.Regex
 import Tuc.Lemmas.Run
+import Tuc.Spec.RegexSpec
+import Tuc.Lemmas.RegexSpec
 /-!
 # C16 — a regex delimiter splits at its matches and is replaced literally
-(first theorems, for ANY matcher: the engine only looks at the match list)
+
+First part: facts for ANY matcher (the engine only looks at the match lists).
+Second part (proofs in `Tuc.Lemmas.RegexSpec`, specification in `Tuc.Spec.RegexSpec`):
+
+1. the executable matcher of `Tuc.Model.Regex` honours the contract of `find_iter`
+   (`regexMatcher_contract`, `regexBag_ok`);
+2. `cut_str` with `-e RE` refines `Spec.specRecordRe`, a specification parametric in the matcher:
+   * without `-r` / `-p` (`regexCut_eq_spec`, `regexRun_eq_spec`), for any matcher honouring the
+     contract: `-g -t -s -m`, fallbacks, fillers;
+   * with `-r R` (`regexCut_replace_eq_spec`), under `SliceStable` (the matcher is context-free on
+     the slices that are printed) and non-empty matches: separators rendered as the literal `R`;
+   * with `-p -r R` (`regexCompress_eq_literal`, `regexCompress_eq_spec`): the record is rewritten
+     once and handed to the LITERAL engine with delimiter `R`;
+3. `-t` (`trimRegex_spec`, `trimRegex_left`, `trimRegex_right`).
 -/
 namespace Tuc
+open Tuc.Spec
 
 /-- the fields are exactly the gaps between successive matches: the k-th field stops where the
     k-th match starts and the next one starts where it ends -/
@@ -51,5 +67,232 @@ theorem compressed_not_replaced_again (text : Bytes) (opt : Opt) :
   split
   · rfl
   · cases opt.replaceDelimiter <;> cases opt.regexBag <;> simp
+
+/-! ## the matcher honours the contract of `find_iter` -/
+
+/-- the matches `Re.findIter` reports are non-empty (`s < e`), in range (`e ≤ len`), in order and
+    do not overlap (each starts at or after the end of the previous one) -/
+theorem regexMatcher_contract (r : Re) (s : Bytes) : StrictMatches s.length 0 (r.findIter s) :=
+  Re.findIter_ok r s
+
+/-- a match consumes a prefix of the haystack -/
+theorem regexMatchLen_le (r : Re) (s : Bytes) (n : Nat) (h : r.matchLen s = some n) :
+    n ≤ s.length := Re.matchLen_le r s n h
+
+/-- the bag of `-e RE` (`RE`, `(RE)+`) satisfies the hypothesis `RegexBag.OK` of the panic-freedom
+    theorem (C12) and of the refinement theorems below -/
+theorem regexBag_ok (r : Re) : (Re.bag r).OK := Re.bag_ok r
+
+/-! ## `-t` -/
+
+/-- `-t` with a regex, for ANY list of matches: a run that starts at offset 0 is cut off on the
+    left (`-t l|b`), a run that ends at the end of the record on the right (`-t r|b`), nothing
+    else is removed — `trim_regex` is the specification's `trimRe` -/
+theorem trimRegex_spec (line : Bytes) (k : TrimKind) (ms : List (Nat × Nat)) :
+    trimRegex line k ms = trimRe line k ms := trimRegex_eq_trimRe line k ms
+
+/-- `-t l`: exactly the run touching the start is removed -/
+theorem trimRegex_left (line : Bytes) (e : Nat) (t : List (Nat × Nat)) :
+    trimRegex line .left ((0, e) :: t) = line.drop e := by
+  rw [trimRegex_spec]
+  simp [trimRe]
+
+/-- `-t r`: exactly the run touching the end is removed; without such a run nothing is -/
+theorem trimRegex_right (line : Bytes) (ms : List (Nat × Nat)) :
+    trimRegex line .right ms =
+      match ms.getLast? with
+      | some (s, e) => if e = line.length then line.take s else line
+      | none => line := by
+  rw [trimRegex_spec]
+  unfold trimRe
+  cases ms.getLast? with
+  | none => simp
+  | some p =>
+    obtain ⟨s, e⟩ := p
+    by_cases he : e = line.length <;> simp [he]
+
+/-- `-t b`: both, independently (a run covering the whole record leaves nothing) -/
+theorem trimRegex_both (line : Bytes) (ms : List (Nat × Nat)) :
+    trimRegex line .both ms =
+      (line.take (match ms.getLast? with
+          | some (s, e) => if e = line.length then s else line.length
+          | none => line.length)).drop
+        (match ms.head? with
+          | some (0, e) => e
+          | _ => 0) := by
+  rw [trimRegex_spec]
+  unfold trimRe
+  cases ms.getLast? with
+  | none =>
+    cases ms.head? with
+    | none => simp
+    | some p => obtain ⟨s, e⟩ := p; cases s <;> simp
+  | some q =>
+    obtain ⟨s', e'⟩ := q
+    cases ms.head? with
+    | none => simp
+    | some p => obtain ⟨s, e⟩ := p; cases s <;> simp
+
+/-! ## refinement of the specification -/
+
+/-- **C16, no `-r`.**  `-e RE` with any matcher honouring the contract of `find_iter`, field or
+    line mode, none of `-r -p --json` (`-j` is refused on both sides): the fields are the gaps
+    between successive matches (`-g`: between runs of matches), a printed range is the bytes of
+    the record from the start of its first gap to the end of its last gap, separators verbatim;
+    `-t -s -m`, fallbacks and fillers as with a literal delimiter. -/
+theorem regexCut_eq_spec (opt : Opt) (bag : RegexBag) (line : Bytes)
+    (hre : opt.regexBag = some bag) (hok : bag.OK)
+    (hr : opt.replaceDelimiter = none) (hp : opt.compressDelimiter = false)
+    (hjson : opt.json = false) (hty : opt.boundsType = .fields ∨ opt.boundsType = .lines)
+    (hz : AllNonzero opt.bounds.list) (hL : LastMarked opt.bounds.list) :
+    (cutStrCore line opt [opt.eol.byte]).1 = specRecordRe (cfgOf opt) bag line :=
+  cutStr_regex_eq_spec opt bag line hre hok hr hp hjson hty hz hL
+
+/-- record by record, stop at the first failure -/
+theorem cutRecords_eq_specRe (opt : Opt) (bag : RegexBag)
+    (h : ∀ r, (cutStrCore r opt [opt.eol.byte]).1 = specRecordRe (cfgOf opt) bag r) :
+    ∀ (recs : List Bytes) (f₀ : List Range) (b₀ : Bytes),
+      cutRecords opt recs f₀ b₀ = specRunRecordsRe (cfgOf opt) bag recs
+  | [], _, _ => rfl
+  | r :: t, f₀, b₀ => by
+    have h1 : (cutStr r opt f₀ b₀ [opt.eol.byte]).1 = specRecordRe (cfgOf opt) bag r := h r
+    simp only [cutRecords, specRunRecordsRe]
+    rw [h1, cutRecords_eq_specRe opt bag h t]
+
+/-- **C16, the run, no `-r`.** -/
+theorem regexRun_eq_spec (opt : Opt) (bag : RegexBag) (input : Bytes)
+    (hre : opt.regexBag = some bag) (hok : bag.OK)
+    (hr : opt.replaceDelimiter = none) (hp : opt.compressDelimiter = false)
+    (hjson : opt.json = false) (hty : opt.boundsType = .fields ∨ opt.boundsType = .lines)
+    (hz : AllNonzero opt.bounds.list) (hL : LastMarked opt.bounds.list) :
+    readAndCutStr opt input = specRunRecordsRe (cfgOf opt) bag (records opt.eol.byte input) :=
+  cutRecords_eq_specRe opt bag
+    (fun r => regexCut_eq_spec opt bag r hre hok hr hp hjson hty hz hL) _ [] []
+
+/-- **C16, `-r R` (no `-p`, no `-g`).**  Every printed range is matched again and every match is
+    replaced by the literal bytes `R`.  If the matches are never empty and the matcher is
+    context-free on the printed slices (`SliceStable`, a property of the real engine for
+    expressions without anchors, validated by testing), this is the specification: the gaps of
+    the range with `R` — verbatim, whatever `$0`, `\1` it contains — once between two of them;
+    with `-j` the joiner is `R` too. -/
+theorem regexCut_replace_eq_spec (opt : Opt) (bag : RegexBag) (line : Bytes) (R : Bytes)
+    (hre : opt.regexBag = some bag) (hok : bag.OK)
+    (hr : opt.replaceDelimiter = some R) (hp : opt.compressDelimiter = false)
+    (hg : opt.greedyDelimiter = false)
+    (hjson : opt.json = false) (hty : opt.boundsType = .fields ∨ opt.boundsType = .lines)
+    (hz : AllNonzero opt.bounds.list) (hL : LastMarked opt.bounds.list)
+    (hstrict : StrictMatches (trimmedRe opt bag line).length 0 (bag.normal (trimmedRe opt bag line)))
+    (hstable : SliceStable bag (trimmedRe opt bag line)) :
+    (cutStrCore line opt [opt.eol.byte]).1 = specRecordRe (cfgOf opt) bag line :=
+  cutStr_regex_replace_eq_spec opt bag line R hre hok hr hp hg hjson hty hz hL hstrict hstable
+
+/- NOT PROVED (the `-g` instance of the theorem above; `regexCut_replace_eq_spec` is the
+   non-greedy part of it):
+
+     theorem regexCut_replace_greedy_eq_spec … (hg : opt.greedyDelimiter = true) … :
+       (cutStrCore line opt [opt.eol.byte]).1 = specRecordRe (cfgOf opt) bag line
+
+   The specification is already written for it (`tokenizeRe … true`: gaps of `(RE)+`, a separator
+   counting for the matches of `RE` inside it, rendered as that many `R`) and agrees with the
+   engine on the examples below.  Missing: an extra hypothesis relating the two match lists — every
+   match of `(RE)+` is tiled exactly by the matches of `RE` inside it and no match of `RE` lies in
+   a gap of `(RE)+` — and the induction over two lists that uses it. -/
+
+/-- the literal text: a separator made of one match is rendered as `R` itself -/
+theorem regexReplace_sep_literal (R x : Bytes) : sepRe (some R) x 1 = R := by
+  simp [sepRe, repeatBytes]
+
+/-- … and the text of two adjacent gaps with `-r R` is `gap ++ R ++ gap` -/
+theorem regexReplace_piece_literal (R f x g : Bytes) (rest : List (Bytes × Nat × Bytes)) :
+    pieceTextRe (sepRe (some R)) ⟨f, (x, 1, g) :: rest⟩ 1 2 = f ++ R ++ g := by
+  simp [pieceTextRe, sepRe, repeatBytes]
+
+/-- **C16, `-p -r R`.**  The record (after `-t`) is rewritten once — every run of matches becomes
+    the literal bytes `R` — and cut by the LITERAL engine with delimiter `R`
+    (`literalAfterCompress`: no regex, no `-p`, no `-t`, no `-r`; `-j` joins with the delimiter,
+    which is `R`).  `hne`: the rewritten record is not empty, which `R ≠ []` guarantees
+    (`replaceMatches_ne_nil`). -/
+theorem regexCompress_eq_literal (line : Bytes) (opt : Opt) (eol : Bytes) (bag : RegexBag)
+    (R : Bytes) (hre : opt.regexBag = some bag) (hr : opt.replaceDelimiter = some R)
+    (hp : opt.compressDelimiter = true)
+    (hty : opt.boundsType = .fields ∨ opt.boundsType = .lines)
+    (hne : trimmedRe opt bag line ≠ [] →
+      replaceMatches (trimmedRe opt bag line) R 0 (bag.greedy (trimmedRe opt bag line)) ≠ []) :
+    (cutStrCore line opt eol).1 =
+      if (trimmedRe opt bag line).isEmpty then
+        (if !opt.onlyDelimited then Run.ok eol else Run.empty)
+      else
+        (cutStrCore (replaceMatches (trimmedRe opt bag line) R 0 (bag.greedy (trimmedRe opt bag line)))
+          (literalAfterCompress opt R) eol).1 :=
+  cutStrCore_regex_compress line opt eol bag R hre hr hp hty hne
+
+/-- **C16, `-p -r R`, against the specification** (`R ≠ []`; ANY matcher, no contract needed):
+    rewrite, then the literal specification `Spec.specRecord` with delimiter `R` — via C01's
+    `cutStr_eq_spec_gen`. -/
+theorem regexCompress_eq_spec (opt : Opt) (bag : RegexBag) (line : Bytes) (R : Bytes)
+    (hre : opt.regexBag = some bag) (hr : opt.replaceDelimiter = some R) (hR : R ≠ [])
+    (hp : opt.compressDelimiter = true) (hjson : opt.json = false)
+    (hty : opt.boundsType = .fields ∨ opt.boundsType = .lines)
+    (hz : AllNonzero opt.bounds.list) (hL : LastMarked opt.bounds.list) :
+    (cutStrCore line opt [opt.eol.byte]).1 = specRecordRe (cfgOf opt) bag line :=
+  cutStr_regex_compress_eq_spec opt bag line R hre hr hR hp hjson hty hz hL
+
+/-- `-p` or `-j` with a regex and no `-r` is refused, by the engine as by the specification -/
+theorem regexCut_needs_replace (opt : Opt) (bag : RegexBag) (line : Bytes) (eol : Bytes)
+    (hre : opt.regexBag = some bag) (hr : opt.replaceDelimiter = none)
+    (h : opt.compressDelimiter = true ∨ opt.join = true) :
+    (cutStrCore line opt eol).1 = Run.fail := by
+  unfold cutStrCore
+  rcases h with h | h
+  · simp [hre, hr, h]
+  · by_cases hp : opt.compressDelimiter = true
+    · simp [hre, hr, hp]
+    · simp [hre, hr, h, hp]
+
+/-! ## examples: `-e '[-,]'` on `a-b,,c`, fields `2:3`
+
+(`decide` cannot run the matcher — `Re.run` is defined by well-founded recursion — so the
+examples are closed by `simp` with the defining equations.) -/
+
+/-- what `Re.parse "[-,]"` returns (`Re.parse` is a `partial def`: checked by evaluation) -/
+def reDashComma : Re := .alt (.byte 45) (.byte 44)
+
+#guard reprStr (Re.parse "[-,]".toList) == reprStr (some reDashComma)
+
+/-- `a-b,,c` -/
+def exLine : Bytes := [97, 45, 98, 44, 44, 99]
+
+/-- `-e '[-,]' -f 2:3`, with `-g` and `-r` as given -/
+def exOpt (g : Bool) (r : Option Bytes) : Opt :=
+  { delimiter := [], bounds := ⟨[.bound { l := .some 2, r := .some 3, isLast := true }], .some 3⟩,
+    greedyDelimiter := g, replaceDelimiter := r, regexBag := some (Re.bag reDashComma) }
+
+example : (Re.bag reDashComma).normal exLine = [(1, 2), (3, 4), (4, 5)] := by
+  simp [exLine, Re.bag, Re.findIter, Re.findIterAux, Re.matchLen, Re.run, reDashComma]
+
+example : (Re.bag reDashComma).greedy exLine = [(1, 2), (3, 5)] := by
+  simp [exLine, Re.bag, Re.findIter, Re.findIterAux, Re.matchLen, Re.run, reDashComma]
+
+section
+local macro "eval_cut" : tactic => `(tactic|
+  simp [cutStrCore, exOpt, exLine, Re.bag, Re.findIter, Re.findIterAux, Re.matchLen, Re.run,
+    reDashComma, fillWithFieldsLocationsUsingRegex, rangesBetweenMatches, emitRecord, outputLoop,
+    outputBof, UserBounds.tryIntoRange, rangeStart, rangeEnd, writeMaybeAsJson,
+    maybeReplaceDelimiter, replaceMatches, slice, Run.seq, Run.ok, Run.empty])
+
+/-- fields `a | b | "" | c`: `2:3` is `b,` -/
+example : (cutStrCore exLine (exOpt false none) [10]).1 = Run.ok [98, 44, 10] := by eval_cut
+
+/-- `-g`: fields `a | b | c`: `2:3` is `b,,c` -/
+example : (cutStrCore exLine (exOpt true none) [10]).1 = Run.ok [98, 44, 44, 99, 10] := by eval_cut
+
+/-- `-r '$0x'`: `b$0x` — the replacement is copied, `$0` is not expanded -/
+example : (cutStrCore exLine (exOpt false (some [36, 48, 120])) [10]).1 =
+    Run.ok [98, 36, 48, 120, 10] := by eval_cut
+
+/-- `-g -r '$0x'`: `b$0x$0xc` — once per match of `RE` in the run -/
+example : (cutStrCore exLine (exOpt true (some [36, 48, 120])) [10]).1 =
+    Run.ok [98, 36, 48, 120, 36, 48, 120, 99, 10] := by eval_cut
+end
 
 end Tuc
